@@ -122,6 +122,6 @@ func exclude(c Case) string {
 func TestRtmpToTsHlsRtsp(t *testing.T) {
 	pbt.Run(t, pbt.Spec[Case]{
 		ID: "C06", Name: "rtmp-to-ts-hls-rtsp", Gen: genCase, Run: run, Classify: classify, Exclude: exclude,
-		Quick: 700, Thorough: 6000,
+		Quick: 600, Thorough: 4000,
 	})
 }
